@@ -348,8 +348,9 @@ def td_tensor_stream(ck, qr, numpy, m):
                 for j in range(i + 1, nmol):
                     agg.set_resonance_coupling(i, j, rng.choice([60.0, -90.0, 140.0]))
         agg.build()
+        sysd = {"H_site": numpy.array(agg.get_Hamiltonian().data).tolist(), "reorg_cm": [float(ml.get_transition_environment((0, 1)).lamb) for ml in mols]}
         for cut, ops in ((None, False), (20.0, False), (20.0, True), (None, True)):
-            inp = {"sites": nmol, "relaxation_cutoff_time": cut, "as_operators": ops}
+            inp = dict(sysd, sites=nmol, relaxation_cutoff_time=cut, as_operators=ops)
             ck.case(("td-tensor", h, cut, ops), nontrivial=True, kind="tensor-stream", nested=False, exception=False)
             try:
                 RT, ham = agg.get_RelaxationTensor(ta, relaxation_theory="standard_Redfield", time_dependent=True, relaxation_cutoff_time=cut, as_operators=ops)
@@ -382,7 +383,9 @@ def td_tensor_stream(ck, qr, numpy, m):
                     inside = [complex(numpy.trace(A_in @ act(t_))) for t_ in tix]
                     rd = rd_keep
                 raw1 = [numpy.array(getattr(RT, k)).copy() for k in names]
-                sc = max(1e-300, max(abs(z) for z in outside))
+                # scale of the comparison: size of the tensor times size of the operators (tr(A R[rho]) itself may vanish, e.g. for A ~ 1)
+                scR = (float(numpy.abs(raw0[0]).max()) * float(numpy.abs(raw0[1]).max())) if ops else float(numpy.abs(raw0[0]).max())
+                sc = max(1e-300, max(abs(z) for z in outside), scR * max(1.0, float(numpy.abs(A).max())))
                 worst = max(abs(a - b) for a, b in zip(inside, outside))
                 if worst > 1e-9 * sc:
                     kbad = tix[int(numpy.argmax([abs(a - b) for a, b in zip(inside, outside)]))]
